@@ -373,6 +373,17 @@ func rsRegisterNewEI(res Resolver, ei EquivInfo) {
 	frt.PipeUnit(eqsItems(ei.eset), (func(_r0 []string) { slice.Iter((func(_r0 string) { rsRegisterTo(res, ei, _r0) }), _r0) }))
 }
 
+func occursCheck(rel UniRel) {
+	found := frt.Pipe(collectTVarFType(rel.Dest), (func(_r0 []string) bool {
+		return slice.Forany(func(n string) bool {
+			return frt.OpEqual(n, rel.SrcV)
+		}, _r0)
+	}))
+	frt.IfOnly(found, (func() {
+		frt.PipeUnit(frt.Sprintf1("Cyclic type is not supported: %s", rel.SrcV), PanicNow)
+	}))
+}
+
 func updateResOne(res Resolver, rel UniRel) []UniRel {
 	ei1 := rsLookupEI(res, rel.SrcV)
 	switch _v14 := (rel.Dest).(type) {
@@ -383,6 +394,7 @@ func updateResOne(res Resolver, rel UniRel) []UniRel {
 		rsRegisterNewEI(res, nei)
 		return rels
 	default:
+		occursCheck(rel)
 		nei, rels := frt.Destr2(eiUpdateResT(ei1, rel.Dest))
 		return frt.IfElse(slice.IsEmpty(rels), (func() []UniRel {
 			return emptyRels()
